@@ -39,7 +39,7 @@ def run_job(kind, key):
             r['witness'] = dict(function=c.name)
         return dict(job=key, records=recs, paths=npaths, lib=sorted(I.used_lib))
     if kind == 'lemmas':
-        return dict(job=key, records=pr.jigg_lemmas(I, PROP) + pr.jigg_call_site(I, PROP) + pr.view_lemmas(PROP))
+        return dict(job=key, records=pr.jigg_lemmas(I, PROP) + pr.jigg_call_site(I, PROP) + pr.view_lemmas(PROP) + pr.tree_view_obligations(I, PROP))
     raise CheckerError(kind)
 
 
@@ -55,7 +55,7 @@ def main(tier='quick', seed=0):
     pr.replay_views(records)
     assumptions = [
         'deductive part: the span elements of Jigg XML (ids, child / terminal references, rule labels, begin / end offsets, root, ids continuing across the trees of an n-best list). '
-        'Tree view Leaf | Un | Bin with opaque node tags (category, labels and token hang off the tag), attribute meanings checked against tree.py in C07; '
+        'Tree view Leaf | Un | Bin with opaque node tags (category, labels and token hang off the tag), attribute meanings checked against the real tree.py properties in this check as well; '
         'the recursive calls of traverse are replaced by its contract (structural induction; the induction principle is the meta-rule, also for the lemmas ids / refs over the spec function span_rec)',
         'assumed contracts: lxml etree.Element / SubElement / set / append / indexing build the elements they are told to; len(tree) = number of words (Tree.__len__ via Tree.leaves); '
         '_cat_multi_valued(cat) is an opaque function of the category (its text is compared by the bounded run); f-strings of integers are kept as structured text (str(int) injective); '
